@@ -102,7 +102,9 @@ func (m *c01mon) after(s *sim, st rig.StepResult, ctx stepCtx) {
 	m.observeT(s, s.r.T(), "after the step")
 	// a message above the expected number cannot be the one that is consumed: on its arrival the
 	// expected number stays where it is (SequenceReset and Logon have rules of their own)
-	if ctx.kind == "in" && ctx.hasSeq && ctx.seq > ctx.tBefore && ctx.msgType != "4" && ctx.msgType != "A" && !m.resetInStep(s, st) {
+	// (an accepted Logon above the expected number is no exception: it reveals a gap, it does not
+	// fill it; a refused one ends the connection and is left out here)
+	if ctx.kind == "in" && ctx.hasSeq && ctx.seq > ctx.tBefore && ctx.msgType != "4" && (ctx.msgType != "A" || s.r.V.IsLoggedOn()) && !m.resetInStep(s, st) {
 		if T := s.r.T(); T != ctx.tBefore {
 			vk.Violation(s.t, c, "C01/expected-number-advanced-by-a-message-above-it", "a %s message with MsgSeqNum %d arrived in state %s while %d was expected; afterwards %d is expected\n%s", ctx.msgType, ctx.seq, ctx.stateBefore, ctx.tBefore, T, s.history())
 		}
@@ -204,6 +206,7 @@ func c01Property(t *rapid.T) {
 	c := c01()
 	cfg := genSimCfg(t)
 	drawExtras(t, c, &cfg)
+	draw789(t, c, &cfg)
 	s := newSim(t, c, cfg)
 	defer s.close()
 	mon := &c01mon{feat: map[string]bool{}, lastT: 1}
